@@ -83,6 +83,18 @@ namespace amgcl { extern profiler<> prof; }
               << std::setw(15) << std::setprecision(8) << std::scientific      \
               << (x) << std::endl
 
+#ifdef AMGCL_VERIF
+// Verification hooks (off by default): a friend accessor used by invariant
+// monitors, and callbacks invoked at named points of the parallel sweeps.
+namespace amgcl { namespace verif {
+struct access;
+extern void (*point_hook)(const char*, long);
+extern void (*barrier_hook)(const char*);
+} }
+#  define AMGCL_VERIF_POINT(name, id)  do { if (::amgcl::verif::point_hook) ::amgcl::verif::point_hook(name, id); } while(0)
+#  define AMGCL_VERIF_BARRIER(name)    do { if (::amgcl::verif::barrier_hook) ::amgcl::verif::barrier_hook(name); } while(0)
+#endif
+
 namespace amgcl {
 
 /// Throws \p message if \p condition is not true.
